@@ -95,7 +95,7 @@ def render_patch(world, pdesc, ctx, op_index, inv):
             nm = (prefix + ln["label"]) if ln.get("temp") else ln["label"]
             lines.append(nm + ":")
         elif "raw" in ln:
-            lines.append(ln["raw"])
+            lines.append(ln["raw"].replace("{T}", prefix))
         elif "marker" in ln:
             imm = 0x5A000000 + ((op_index * 64 + inv) & 0xFFFFFF)
             lines.append(isa.asm({"v": "movi", "imm": imm, "r": "rax"}))
@@ -682,6 +682,14 @@ def _ordering_list(order):
     return out
 
 
+class _FormatOnly(logging.Handler):
+    """Formats every record (so that %s of blocks, patches and expressions
+    is really evaluated) and throws the text away."""
+
+    def emit(self, record):
+        record.getMessage()
+
+
 def run_session(world, model, sdesc, armed, index, logger=None, gen_cb=None, check_shape=None, sink=None):
     """Execute one session against the real module and the model.
     Returns the Session (with .error set if apply() raised)."""
@@ -704,6 +712,8 @@ def run_session(world, model, sdesc, armed, index, logger=None, gen_cb=None, che
             raise core.Rejected("session violates the generator's shape preconditions")
     sess = Session(world, model, sdesc, armed, index)
     sess.error = None
+    if sdesc.get("debug_log"):
+        sess.fired["knob.debug_log"] += 1
     if m.aux_data.get("functionEntries") is not None and m.aux_data.get("functionBlocks") is not None:
         functions = gtirb_functions.Function.build_functions(m)
     else:
@@ -713,6 +723,18 @@ def run_session(world, model, sdesc, armed, index, logger=None, gen_cb=None, che
     if not lg.handlers:
         lg.addHandler(logging.NullHandler())
         lg.propagate = False
+    if logger is None and sdesc.get("debug_log"):
+        # DEBUG knob: the library then disassembles and prints the block
+        # before and after every patch, reading the IR in mid-rewrite; the
+        # result of the rewrite must not depend on it
+        lg = logging.getLogger("sim.debug")
+        if not lg.handlers:
+            lg.addHandler(_FormatOnly())
+            lg.propagate = False
+            lg.setLevel(logging.DEBUG)
+        sess_debug = True
+    else:
+        sess_debug = False
     ops = sdesc["ops"]
     order = sdesc.get("reg_order") or list(range(len(ops)))
     sess.resolved = {}
@@ -786,6 +808,16 @@ def run_session(world, model, sdesc, armed, index, logger=None, gen_cb=None, che
         ]
         for sect in m.sections
     }
+    # function tables by block uuid before the session (zero-sized blocks
+    # are not part of the listing model; C06 judges them from these)
+    sess.pre_fentries = {}
+    sess.pre_fblocks = {}
+    for tname, dst in (("functionEntries", sess.pre_fentries), ("functionBlocks", sess.pre_fblocks)):
+        tab = m.aux_data.get(tname)
+        if tab is not None:
+            for fu, bs in tab.data.items():
+                for b in bs:
+                    dst[b.uuid] = fu
     sess.orig_cfg = world.ir.cfg
     sess.pre_symbol_refs = {s.uuid: s.referent is not None for s in m.symbols}
     sess.cache_cfg = None
@@ -893,16 +925,18 @@ def apply_to_model(sess):
 def apply_retargets(sess):
     from . import oracles
 
-    if sess.delsyms:
-        sess.c19_used = oracles.c19_uses(sess.model, [n for n, f in sess.delsyms.items() if not f])
-    if sess.delsyms and sess.error is None:
-        sess.model.delete_symbols(set(sess.delsyms))
-
+    # order of a rewrite: modifications, then retargets, then deletions (a
+    # symbol whose uses were all retargeted can be deleted without force, and
+    # the retargeted expressions stay - C18)
     if sess.retargets:
         # whether a label that slid onto a block deleted with
         # retarget_to_proxy became external is decided by the implementation
         oracles._reconcile_proxies(sess.world, sess.model)
         sess.model.retarget(sess.retargets, lambda t, attrs, ai, bi: oracles.convert_attrs(sess.world.desc, t, attrs, ai, bi))
+    if sess.delsyms:
+        sess.c19_used = oracles.c19_uses(sess.model, [n for n, f in sess.delsyms.items() if not f])
+    if sess.delsyms and sess.error is None:
+        sess.model.delete_symbols(set(sess.delsyms))
 
 
 def _unit_rank(model, sp):
